@@ -379,9 +379,14 @@ outer:
 		}
 
 		utfb := make([]byte, len(b)*4) // worst case
-		for l := 1; l < len(b); l++ {
+		for l := 1; l <= len(b); l++ {
 			s.decoder.Reset()
-			nout, nin, _ := s.decoder.Transform(utfb, b[:l], true)
+			// not at EOF: a truncated multi-byte character must report
+			// a short source rather than decode to a replacement rune
+			nout, nin, err := s.decoder.Transform(utfb, b[:l], false)
+			if err == transform.ErrShortSrc {
+				continue
+			}
 
 			if nout != 0 {
 				r, _ := utf8.DecodeRune(utfb[:nout])
